@@ -4,6 +4,7 @@ import (
 	"context"
 	"errors"
 	"fmt"
+	"runtime"
 	"sort"
 	"strings"
 	"sync"
@@ -52,7 +53,7 @@ var c18Grid = []time.Duration{0, time.Millisecond, 10 * time.Millisecond, 100 * 
 
 func TestC18(t *testing.T) {
 	rec := ev.Get("C18")
-	rec.Rule("per case a synctest bubble: 0..5 targets given as comma-separated IP literals (plus resolve-error targets from over-long names and targets removed by the address family), per-target behaviour {succeed after d, fail after d, hang until the context ends, ignore the context and succeed/fail after d, be rejected by the server with retry configs after d and then succeed/fail/hang on the one retry} with d from a 12-point grid 0..40 s, MaxConcurrency 0..4, ConcurrencyDelay {default,10 ms,1 s,5 s}, Timeout {default,50 ms,2 s,35 s}, caller cancellation at a drawn time or never, network tcp/tcp4/tcp6. Oracle: invariants over the virtual-time event log (order, concurrency bound, stagger, per-attempt deadline (the retry after an ECH rejection shares the deadline the attempt began with), first success wins and is returned at its completion time, losers closed, joined errors, prompt cancellation, attempts begun after the outcome see a cancelled context) and no goroutine left blocked when the bubble ends. distinct = (behaviour vector, options); non-trivial = 2+ dialed targets and at least one success")
+	rec.Rule("per case a synctest bubble: 0..5 targets given as comma-separated IP literals (plus resolve-error targets from over-long names and targets removed by the address family), per-target behaviour {succeed after d, fail after d, hang until the context ends, ignore the context and succeed/fail after d, be rejected by the server with retry configs after d and then succeed/fail/hang on the one retry} with d from a 12-point grid 0..40 s, MaxConcurrency 0..4, ConcurrencyDelay {default,10 ms,1 s,5 s}, Timeout {default,50 ms,2 s,35 s}, caller cancellation at a drawn time or never, network tcp/tcp4/tcp6. Oracle: invariants over the virtual-time event log (order, concurrency bound, stagger, per-attempt deadline (the retry after an ECH rejection shares the deadline the attempt began with), first success wins and is returned at its completion time, losers closed, joined errors, prompt cancellation, attempts begun after the outcome see a cancelled context) no goroutine of the Dialer alive at the first instant at which Dial has returned and no attempt is outstanding, and none left blocked when the bubble ends. distinct = (behaviour vector, options); non-trivial = 2+ dialed targets and at least one success")
 	rec.Mandatory("two_successes_in_window", "success_after_cancel", "all_hang", "maxconc1_5targets", "late_winner", "no_address", "all_fail", "caller_cancel", "resolve_error_target", "ech_reject_retry")
 	rapid.Check(t, func(rt *rapid.T) {
 		network := rapid.SampledFrom([]string{"tcp", "tcp", "tcp4", "tcp6"}).Draw(rt, "network")
@@ -115,6 +116,7 @@ func TestC18(t *testing.T) {
 			sentinels[i] = fmt.Errorf("attempt %d failed", i)
 		}
 		rejected := make([]bool, len(bs))
+		leftBehind, leftSample, leftAt := 0, "", time.Duration(0)
 		var retConn *fakeConn
 		var retErr error
 		var retAt time.Duration
@@ -125,7 +127,19 @@ func TestC18(t *testing.T) {
 			synctest.Test(t, func(t *testing.T) {
 				start := time.Now()
 				d := &ech.Dialer[*fakeConn]{MaxConcurrency: maxc, ConcurrencyDelay: delay, Timeout: timeout, Resolver: ech.InsecureGoResolver()}
+				quiet := make(chan struct{}, 1)
+				signal := func() {
+					select {
+					case quiet <- struct{}{}:
+					default:
+					}
+				}
+				inflight := 0
 				d.DialFunc = func(ctx context.Context, nw, addr string, tc *tls.Config) (*fakeConn, error) {
+					mu.Lock()
+					inflight++
+					mu.Unlock()
+					defer func() { mu.Lock(); inflight--; mu.Unlock(); signal() }()
 					i, ok := byAddr[strings.NewReplacer("[", "", "]", "").Replace(addr)]
 					if !ok {
 						mu.Lock()
@@ -211,9 +225,39 @@ func TestC18(t *testing.T) {
 					mu.Lock()
 					retConn, retErr, retAt, returned = c, err, time.Since(start), true
 					mu.Unlock()
+					signal()
 				}()
 				// long enough for every attempt (<= 5 x (40 s + delays)) to finish
-				time.Sleep(10 * time.Minute)
+				end := time.NewTimer(10 * time.Minute)
+				checked := false
+			waiting:
+				for {
+					select {
+					case <-quiet:
+						synctest.Wait() // every goroutine of the bubble has settled
+						mu.Lock()
+						q := returned && inflight == 0
+						mu.Unlock()
+						if q && !checked {
+							// Dial has returned and no attempt is outstanding: nothing of the
+							// Dialer may still be alive now (not merely some delay later)
+							checked = true
+							buf := make([]byte, 1<<16)
+							buf = buf[:runtime.Stack(buf, true)]
+							for _, g := range strings.Split(string(buf), "\n\n") {
+								if strings.Contains(g, "github.com/c2FmZQ/ech.(*Dialer") {
+									leftBehind++
+									if leftSample == "" {
+										leftSample = strings.Join(strings.SplitN(g, "\n", 4)[:min(3, len(strings.SplitN(g, "\n", 4)))], " | ")
+									}
+								}
+							}
+							leftAt = time.Since(start)
+						}
+					case <-end.C:
+						break waiting
+					}
+				}
 				synctest.Wait()
 			})
 			return nil
@@ -229,6 +273,9 @@ func TestC18(t *testing.T) {
 		}
 		if viol != "" {
 			ev.Violation(rt, "C18", rp, "%s", viol)
+		}
+		if leftBehind > 0 {
+			ev.Violation(rt, "C18", rp, "%d goroutine(s) of the Dialer are still alive at %v, when Dial has returned and every attempt has returned (e.g. %s)", leftBehind, leftAt, leftSample)
 		}
 		if !returned {
 			ev.Violation(rt, "C18", rp, "Dial did not return within 10 virtual minutes")
